@@ -95,6 +95,7 @@ type wg struct {
 	stmtNode    ast.Node
 	pendingProv string
 	mux         *wgMux // set while translating the muxer part
+	psi         *wgPsi // set while translating the PSI / descriptor / DVB writers (psiwritegen.go)
 }
 
 func (s *wg) fail(n ast.Node, format string, a ...interface{}) { s.t.fail(n, format, a...) }
@@ -302,13 +303,13 @@ func (s *wg) need(e ast.Expr, n ast.Node) ast.Expr {
 	if typ.k != "opt" {
 		return e
 	}
-	if s.guarded {
-		s.fail(n, "dereference of a pointer under a short-circuit operator")
-	}
 	if v, ok := s.cache[term]; ok {
 		if _, live := s.t.env[v]; live {
-			return &ast.Ident{NamePos: n.Pos(), Name: v}
+			return &ast.Ident{NamePos: n.Pos(), Name: v} // already dereferenced on this path: no new panic point
 		}
+	}
+	if s.guarded {
+		s.fail(n, "dereference of a pointer under a short-circuit operator")
 	}
 	base := "p"
 	if sel, ok := e.(*ast.SelectorExpr); ok {
@@ -349,6 +350,11 @@ func (s *wg) rwAll(es []ast.Expr) []ast.Expr {
 func (s *wg) rw(e ast.Expr) ast.Expr {
 	if s.mux != nil {
 		if r, ok := s.mux.rw(e); ok {
+			return r
+		}
+	}
+	if s.psi != nil {
+		if r, ok := s.psi.rw(e); ok {
 			return r
 		}
 	}
@@ -530,6 +536,9 @@ func (s *wg) rwCall(x *ast.CallExpr) ast.Expr {
 						if lit, ok := a.(*ast.BasicLit); ok && lit.Kind == token.STRING {
 							continue
 						}
+						if s.psi != nil {
+							a = s.psi.errorfArg(a)
+						}
 						s.sx(a) // the arguments must be translatable (nothing hidden in them); their dereferences are hoisted
 					}
 					return s.leaf(x, "EFmt", tyErr)
@@ -634,6 +643,15 @@ func wgBind(vars []string, m, k string) string {
 	return "'(" + strings.Join(vars, ", ") + ") <- " + m + " ;;\n  " + k
 }
 
+// bindEffect binds the results of a computation that may hand items to the BitsWriter. While a write callback is
+// registered (psiwritegen.go) the items are also appended to the ghost variable the callback's accumulator is read from.
+func (s *wg) bindEffect(vars []string, m string, k func() string) string {
+	if s.psi != nil && s.psi.cb != nil {
+		return s.psi.bindTracked(vars, m, k)
+	}
+	return wgBind(vars, m, k())
+}
+
 func (s *wg) ret(st *ast.ReturnStmt) string {
 	if len(st.Results) == 0 {
 		if len(s.results) != len(s.named) {
@@ -686,6 +704,9 @@ func (s *wg) funcCall(e ast.Expr) (string, *ast.CallExpr, bool) {
 		return "", nil, false
 	}
 	if d, isF := s.p.funcs[f.Name]; isF && wgIsWriterFunc(d) {
+		return f.Name, c, true
+	}
+	if s.psi != nil && wgPureM[f.Name] {
 		return f.Name, c, true
 	}
 	return "", nil, false
@@ -776,15 +797,23 @@ func (s *wg) effectT(e ast.Expr, dropped bool, n ast.Node) (string, []*ty, strin
 		if !ok {
 			s.fail(n, "call of the untranslated writer %s", name)
 		}
-		comp, target, ok := s.writerArg(c.Args[0], n)
-		if !ok {
-			s.fail(n, "%s writes through something that is not this function's writer", name)
+		// a function that is in the writer monad only because it can panic has no writer: all its arguments are parameters
+		comp, target, cargs := "wcall", "", c.Args
+		if !wgPureM[name] {
+			if len(c.Args) == 0 {
+				s.fail(n, "%s is called without a writer", name)
+			}
+			comp, target, ok = s.writerArg(c.Args[0], n)
+			if !ok {
+				s.fail(n, "%s writes through something that is not this function's writer", name)
+			}
+			cargs = c.Args[1:]
 		}
-		if len(c.Args)-1 != len(sig.params) {
+		if len(cargs) != len(sig.params) {
 			s.fail(n, "wrong number of arguments for %s", name)
 		}
 		parts := []string{name}
-		for i, a := range c.Args[1:] {
+		for i, a := range cargs {
 			parts = append(parts, paren(s.value(a, sig.params[i], n)))
 		}
 		return comp + " (" + strings.Join(parts, " ") + ")", sig.results, target, true
@@ -824,6 +853,11 @@ func (s *wg) stmts(list []ast.Stmt, k func() string) string {
 	rest := func() string { return s.stmts(list[1:], k) }
 	if s.mux != nil {
 		if out, ok := s.mux.stmt(list, k); ok {
+			return out
+		}
+	}
+	if s.psi != nil {
+		if out, ok := s.psi.stmt(list, k); ok {
 			return out
 		}
 	}
@@ -900,7 +934,7 @@ func (s *wg) stmts(list []ast.Stmt, k func() string) string {
 			it := s.fresh("items")
 			return pre + "'(" + it + ", _) <- " + m + " ;;\n  " + s.mux.capture(target, it, st) + rest()
 		}
-		return pre + m + " ;;;\n  " + rest()
+		return pre + s.bindEffect(nil, m, rest)
 	case *ast.AssignStmt:
 		s.stmtNode = st
 		return s.assignStmt(st, func() string { s.stmtNode = nil; return rest() })
@@ -973,7 +1007,7 @@ func (s *wg) assignStmt(st *ast.AssignStmt, rest func() string) string {
 			for i, l := range st.Lhs {
 				out += s.assignTo(l, st.Tok, tmps[i], res[i], st)
 			}
-			return pre + wgBind(tmps, m, out+rest())
+			return pre + s.bindEffect(tmps, m, func() string { return out + rest() })
 		}
 	}
 	if len(st.Lhs) != len(st.Rhs) {
@@ -1791,7 +1825,8 @@ func (s *wg) function() string {
 	if !ok {
 		panic(genError{fmt.Sprintf("function %s not found in /repo", s.key)})
 	}
-	if d.Body == nil || !wgIsWriterFunc(d) {
+	pureM := s.psi != nil && s.psi.pure // no writer: the function is in the monad because it can panic
+	if d.Body == nil || !(wgIsWriterFunc(d) || pureM) {
 		s.fail(d, "not a function whose first parameter is a *astikit.BitsWriter")
 	}
 	sig := &wgSig{}
@@ -1801,7 +1836,7 @@ func (s *wg) function() string {
 			s.fail(d, "unnamed parameter")
 		}
 		for j, id := range f.Names {
-			if i == 0 && j == 0 {
+			if i == 0 && j == 0 && !pureM {
 				s.wname = id.Name
 				continue
 			}
